@@ -603,6 +603,67 @@ func runC15(rc *RC) {
 			rc.Failf("C15.c4", "bad-packet-delivered:closed-sid", "a packet for the closed session reached the reader")
 		}
 	}
+	// phase 6: the session id is used again for a new stream; the connection values of the first one are still around
+	// and whoever holds them may close them again (a deferred Close): that is a no-op and the new stream is not affected
+	if closer < 2 && !wrap && !overflow && acceptMode <= 2 && rdB.done && rdB.eof && opener.Done() && accT.Done() && connA != nil && connB != nil && ch.Chance("workload", 1, 2) {
+		p3, p4 := genPayload(rc, block), genPayload(rc, block)
+		var c2A *ibb.Conn
+		var c2B net.Conn
+		var o2err, a2err, w3err, w4err, c2err error
+		var r2A, r2B ibbReader
+		acc2 := rc.Spawn("acceptor-2", func() { c2B, a2err = lst.Accept() })
+		stage := 0
+		op2 := rc.Spawn("opener-2", func() {
+			simrt.WaitUntil("opener-2:acceptor-ready", func() bool { return strings.HasPrefix(acc2.Site, "blocked:ibb/listen.go") || acc2.Done() })
+			octx, ocancel := context.WithTimeout(ctx, 30*time.Second)
+			defer ocancel()
+			c2A, o2err = hA.OpenIQ(octx, stanza.IQ{To: bJID}, p.A, ack, uint16(block), sid)
+		})
+		rc.S.Run(func() bool { return op2.Done() && acc2.Done() }, 400000, time.Minute)
+		rc.Fire("sid-reused")
+		rc.Evals["C15.c1"]++
+		if !op2.Done() || !acc2.Done() || o2err != nil || a2err != nil || c2A == nil || c2B == nil {
+			rc.Failf("C15.c1", "reopen-same-sid-failed", "a second stream with the session id of the closed one: open returned %v (done=%v), accept returned %v (done=%v); stuck %v", o2err, op2.Done(), a2err, acc2.Done(), rc.S.Stuck())
+			finishC15(rc, p, &phase)
+			return
+		}
+		stale := rc.Spawn("stale-close", func() {
+			// both old connection values, in a drawn order, each possibly twice
+			cs := []io.Closer{connA, connB}
+			if ch.Chance("workload", 1, 2) {
+				cs[0], cs[1] = cs[1], cs[0]
+			}
+			for _, c := range cs {
+				for i, n := 0, ch.Range("workload", 0, 2); i < n; i++ {
+					simrt.Yield("stale-close")
+					c.Close()
+				}
+			}
+		})
+		rc.Spawn("reader-2a", func() { readAll(rc, c2A, &r2A, rbuf) })
+		rc.Spawn("reader-2b", func() { readAll(rc, c2B, &r2B, rbuf) })
+		w3 := rc.Spawn("writer-2a", func() {
+			w3err = writeAll(c2A, c2A.Flush, p3, "w3", 0)
+			simrt.WaitUntil("close-2", func() bool { return stage == 1 })
+			c2err = c2A.Close()
+		})
+		w4 := rc.Spawn("writer-2b", func() { w4err = writeAll(c2B, c2B.(*ibb.Conn).Flush, p4, "w4", 0) })
+		// what was flushed (whole base64 groups) becomes readable without further writes
+		m3, m4 := len(p3)-len(p3)%3, len(p4)-len(p4)%3
+		rc.S.Run(func() bool { return stale.Done() && w4.Done() && len(r2A.got) >= m4 && len(r2B.got) >= m3 }, 800000, time.Minute)
+		rc.Evals["C15.c2"]++
+		if w3err != nil || w4err != nil {
+			rc.Failf("C15.c2", "write-failed:reused-sid", "writing to the second stream under the reused session id failed: a->b %v, b->a %v", w3err, w4err)
+		} else if len(r2B.got) < m3 || len(r2A.got) < m4 || !bytes.HasPrefix(p3, r2B.got) || !bytes.HasPrefix(p4, r2A.got) {
+			rc.Failf("C15.c2", "bytes-differ:reused-sid", "second stream under the reused session id: a->b read %d of %d flushed bytes, b->a read %d of %d flushed bytes (writers done %v %v); stuck %v", len(r2B.got), m3, len(r2A.got), m4, w3.Done(), w4.Done(), rc.S.Stuck())
+		}
+		stage = 1
+		rc.S.Run(func() bool { return w3.Done() && r2A.done && r2B.done }, 400000, time.Minute)
+		if w3err == nil && w4err == nil {
+			rc.Check("C15.c2", "no-eof-after-close:reused-sid", w3.Done() && c2err == nil && r2B.done && r2B.eof && r2A.done && r2A.eof, "second stream under the reused session id closed by its opener (Close returned %v, done %v): acceptor's reader done=%v eof=%v, opener's reader done=%v eof=%v; stuck %v", c2err, w3.Done(), r2B.done, r2B.eof, r2A.done, r2A.eof, rc.S.Stuck())
+			rc.Check("C15.c2", "bytes-lost-at-close:reused-sid", !r2B.eof || !r2A.eof || (bytes.Equal(r2B.got, p3) && bytes.Equal(r2A.got, p4)), "second stream under the reused session id after its close: a->b read %d of %d bytes, b->a read %d of %d bytes", len(r2B.got), len(p3), len(r2A.got), len(p4))
+		}
+	}
 	finishC15(rc, p, &phase)
 }
 
